@@ -1,5 +1,7 @@
 import CoreBGP.Model.Peer
 import CoreBGP.Lemmas.Peer
+import CoreBGP.Lemmas.PeerLocal
+import CoreBGP.Lemmas.PeerStop
 /-!
 # C10 (L2 half) — shutdown from any state completes; no deadlock
 
@@ -14,6 +16,7 @@ balanced. The data-race clause is `CoreBGP.Props.C10Own` (ownership over the ext
 -/
 namespace CoreBGP.Props.C10
 open CoreBGP CoreBGP.Model
+open CoreBGP.Lemmas.PeerLocal CoreBGP.Lemmas.PeerStop
 
 /-- the steps that drive a stop forward: the manager taking its `closeCh` case or executing its
 pending instruction, and an FSM whose `closeCh` is closed taking that case (after entering
@@ -31,31 +34,119 @@ def stopDirected (s : PState) : List (Label × PState) :=
 
 /-- they are steps of the system -/
 theorem stopDirected_sub (s : PState) : ∀ x ∈ stopDirected s, x ∈ next s := by
-  sorry
+  intro x hx
+  simp only [stopDirected, List.mem_append] at hx
+  simp only [next, List.mem_append]
+  rcases hx with hx | hx
+  · left; left; left; left
+    split at hx
+    · rename_i ht
+      rw [ht]
+      split at hx
+      · rename_i hc
+        simp only [Bool.and_eq_true, Bool.not_eq_eq_eq_not, Bool.not_true] at hc
+        simp only [List.mem_singleton] at hx
+        subst hx
+        unfold pMain
+        rw [if_neg (by simp [hc.2]), if_pos hc.1]
+        simp
+      · simp at hx
+    · rename_i ins rest ht
+      rw [ht]
+      exact hx
+  · simp only [List.mem_flatMap] at hx
+    obtain ⟨i, hi, hx⟩ := hx
+    have key : x ∈ fSteps s i := by
+      split at hx
+      · rename_i hc
+        simp only [List.mem_map, List.mem_append] at hx
+        obtain ⟨⟨l, y⟩, hy, rfl⟩ := hx
+        simp only [fSteps, List.mem_map, List.mem_append]
+        refine ⟨(l, y), ?_, rfl⟩
+        rcases hy with hy | hy
+        · left; rw [if_pos hc]; exact hy
+        · right
+          split at hy
+          · rename_i he
+            simp only [Bool.and_eq_true, decide_eq_true_eq, Bool.not_eq_eq_eq_not, Bool.not_true] at he
+            rw [he.1]
+            simp only [runOutcomes, he.2]
+            simpa using hy
+          · simp at hy
+      · simp at hx
+    simp only [List.mem_cons, List.not_mem_nil, or_false] at hi
+    rcases hi with rfl | rfl
+    · left; left; left; right; exact key
+    · left; left; right; exact key
 
 /-- no deadlock: in every reachable state in which a stop has been requested and not completed, a
 stop-directed step is enabled -/
 theorem progress (d p : Bool) (s : PState) (h : PReach d p s) (hc : s.pclosed = true) (hd : s.pdone = false) :
     stopDirected s ≠ [] := by
-  sorry
+  have hi := sinv_reachable h
+  intro hnil
+  simp only [stopDirected, List.append_eq_nil_iff] at hnil
+  obtain ⟨hA, hB⟩ := hnil
+  cases ht : s.todo with
+  | nil =>
+    rw [ht] at hA
+    simp [hc, hd] at hA
+  | cons ins rest =>
+    rw [ht] at hA
+    simp only at hA
+    by_cases hdis : ∃ i, ins = .disable i ∧ (s.f i).closed = true ∧ (s.f i).pc ≠ .done
+    · obtain ⟨i, rfl, hcl, hnd⟩ := hdis
+      have hp : s.present i = true := (hi.t i).disPres (by rw [ht]; exact rfl)
+      obtain ⟨hl, hne⟩ := fOnClose_progress i (s.f i) ((hi.x i).pres hp) hnd (hi.x i).noRunDis
+      simp only [List.flatMap_eq_nil_iff] at hB
+      have := hB i (by cases i <;> simp)
+      rw [if_pos (by simp [hcl, hl])] at this
+      exact hne (List.map_eq_nil_iff.1 this)
+    · refine pInstr_progress s ins rest hc (fun i e => ?_) hA
+      cases hcl : (s.f i).closed
+      · exact Or.inl rfl
+      · right
+        refine Classical.byContradiction fun hnd => hdis ⟨i, e, hcl, hnd⟩
 
 /-- completion: when the stop has returned both FSM slots are empty (every FSM goroutine finished and
 was joined), no connection is held, no dial is outstanding, nothing is pending in the manager, and
 every OnEstablished has been matched by its OnClose -/
 theorem complete (d p : Bool) (s : PState) (h : PReach d p s) (hd : s.pdone = true) :
     s.fo = {} ∧ s.fi = {} ∧ s.presentO = false ∧ s.presentI = false ∧ s.todo = [] ∧ s.hist = some .idle := by
-  sorry
+  have hi := sinv_reachable h
+  obtain ⟨-, ht, hpo, hpi⟩ := hi.tg.pd hd
+  have ho := hi.xo.abs hpo
+  have hn := hi.xn.abs hpi
+  refine ⟨ho, hn, hpo, hpi, ht, ?_⟩
+  have := hi.hist
+  rw [ho, hn] at this
+  simpa using this
 
 /-- a stopped FSM holds nothing: whenever an FSM has reached `done` it has no connection and no
 outstanding dial (in particular a dial that succeeded while the stop was in flight was closed) -/
 theorem done_holds_nothing (d p : Bool) (s : PState) (h : PReach d p s) (i : Dir) (hp : (s.f i).pc = .done) :
-    (s.f i).conn = false ∧ (s.f i).dialing = false ∧ (s.f i).inEst = false := by
-  sorry
+    (s.f i).conn = false ∧ (s.f i).dialing = false ∧ (s.f i).inEst = false :=
+  ((sinv_reachable h).x i).doneH hp
 
 /-- after the stop has returned nothing but environment noise can happen: no step of the peer's
 goroutines is enabled any more -/
 theorem quiescent (d p : Bool) (s : PState) (h : PReach d p s) (hd : s.pdone = true) :
     ∀ l s', (l, s') ∈ next s → (∃ i m, l = .rsend i m) ∧ s' = s := by
-  sorry
+  have hi := sinv_reachable h
+  obtain ⟨ho, hn, hpo, hpi, ht, -⟩ := complete d p s h hd
+  obtain ⟨hpc, -⟩ := hi.tg.pd hd
+  intro l s' hm
+  simp only [next, ht, List.mem_append] at hm
+  rcases hm with (((hm | hm) | hm) | hm) | hm
+  · simp [pMain, hd] at hm
+  · simp [fSteps, PState.f, ho, FPc.listensClose] at hm
+  · simp [fSteps, PState.f, hn, FPc.listensClose] at hm
+  · simp [hpc] at hm
+  · simp only [rsendSteps, List.mem_flatMap, List.mem_append, List.mem_singleton] at hm
+    obtain ⟨i, -, m, -, hm | hm⟩ := hm
+    · have : (s.f i).conn = false := by cases i <;> simp [PState.f, ho, hn]
+      simp [this] at hm
+    · obtain ⟨rfl, rfl⟩ := Prod.mk.inj hm
+      exact ⟨⟨i, m, rfl⟩, rfl⟩
 
 end CoreBGP.Props.C10
